@@ -57,6 +57,8 @@ A_CORE = ["the executable step rule (internal/sm/refstep.go), written from READM
 reg("C04", "./checks/core", "^TestC04", assumptions=A_CORE)
 reg("C05", "./checks/core", "^TestC05", assumptions=A_CORE)
 reg("C06", "./checks/core", "^TestC06", assumptions=A_CORE[2:] + ["native actions never mutate nested values in place (actions are documented as side-effect free)"])
+reg("C07", "./checks/core", "^TestC07", assumptions=["a nil *State and Execution literals with nil Events are API misuse, not generated", "panics inside the third-party YAML parser on byte-level garbage are not searched for"])
+reg("C08", "./checks/core", "^TestC08", assumptions=A_CORE[2:] + ["the action model (internal/sm/actlang.go) says which emissions a completed action makes", "after a walk's deadline has passed a later action may complete or be cut short (both accepted)"])
 reg("C18", "./checks/core", "^TestC18", assumptions=A_CORE + ["an action that returns null gets empty bindings; whether permanent bindings survive that is not judged"])
 
 
